@@ -124,10 +124,14 @@ EncodeClauses(e) ==
   \cup
   (* C05: checksum = algorithm over exactly this frame's bytes *)
   (IF P("C05") /\ T \in CsumTypes /\ e.res = "ok" /\ HeaderConforms(T, v, app)
-   THEN LET dev == IF CsumFieldOf(T, app) = Alg(ChecksumAlg(T), pre \o Take(app, Len(app) - 4))
-                   THEN "FrameChecksum_OverUnread" ELSE "none" IN
-        (IF CsumFieldOf(T, app) # CorrectCsum(T, app) THEN {<<"C05.wire-checksum", dev>>} ELSE {})
-        \cup (IF e.vpost[CsumName(T)] # CorrectCsum(T, app) THEN {<<"C05.object-checksum", dev>>} ELSE {})
+   THEN LET good == CorrectCsum(T, app)
+            wireOK == CsumFieldOf(T, app) = good
+            objOK == e.vpost[CsumName(T)] = good
+        IN IF wireOK /\ objOK THEN {}
+           ELSE LET dev == IF Len(pre) > 0 /\ CsumFieldOf(T, app) = Alg(ChecksumAlg(T), pre \o Take(app, Len(app) - 4))
+                           THEN "FrameChecksum_OverUnread" ELSE "none"
+                IN (IF ~wireOK THEN {<<"C05.wire-checksum", dev>>} ELSE {})
+                   \cup (IF ~objOK THEN {<<"C05.object-checksum", dev>>} ELSE {})
    ELSE {})
   \cup
   (* C06: append-only, context-free, repeatable (self-referential) *)
